@@ -87,7 +87,16 @@ def gen_cases(run, n_model, n_snap):
 # oracle: the property on the implementation's observations
 
 def oracle_case(case, obs):
-    """Violations of C13 visible in one executed case."""
+    """Violations of C13 visible in one executed case (never raises: a case the oracle cannot
+    judge is reported as one, with the case as replay)."""
+    try:
+        return _oracle_case(case, obs)
+    except Exception as e:  # noqa: BLE001
+        return [Violation("the C13 oracle could not judge a %s case (%s: %s)" % (case.get("kind"), type(e).__name__, e),
+                          {"case": {"kind": case.get("kind"), "ops": case["ops"]}, "at": len(case["ops"]) - 1, "oracle_error": True})]
+
+
+def _oracle_case(case, obs):
     out = []
     if "harness_error" in obs:
         return out
@@ -103,6 +112,9 @@ def oracle_case(case, obs):
             # harness's snapshots while == holds is only noted (coverage["deepcopy_snapshot_differs"]).
             if not ex.get("equal", True):
                 what = "copy.deepcopy of env[%d] is not equal (==) to its original" % op["arg"]
+            elif ex.get("same_instants") is False:
+                # == on datetimes of one zone ignores fold / offset: equal values denote the same instants
+                what = "copy.deepcopy of env[%d] holds a datetime that denotes another instant than the original's" % op["arg"]
             elif not ex.get("unshared", True):
                 what = "copy.deepcopy of env[%d] shares mutable state with it at %s" % (op["arg"], ex.get("common"))
         if op["op"] in REFUSAL_OPS and ex.get("is_prop"):
@@ -114,6 +126,31 @@ def oracle_case(case, obs):
             out.append(Violation(what, {"case": {"kind": case.get("kind"), "ops": case["ops"][:k + 1]}, "at": k}))
             break
     return out
+
+
+def essence(r):
+    """what must not depend on the process environment: status, mutation set, sharing per call"""
+    if "ops" not in r:
+        return r
+    return [(o["exc"], sorted((str(m["env"]) for m in o["mut"])), o["shared"]) for o in r["ops"]]
+
+
+def run_impl_env(cases, extra_env):
+    """common.run_impl with extra environment variables for the worker (one process)"""
+    import json
+    import subprocess
+    script = os.path.join(common.VERIF, "harness", "impl", "c13_impl.py")
+    env = common.impl_env()
+    env.update(extra_env)
+    inp = "\n".join(json.dumps(c) for c in cases) + "\n"
+    p = subprocess.run([common.PY, script], input=inp, stdout=subprocess.PIPE, stderr=subprocess.PIPE, text=True, env=env,
+                       timeout=1800, cwd=common.scratch())
+    if p.returncode != 0:
+        raise RuntimeError(p.stderr[-2000:])
+    res = [json.loads(l) for l in p.stdout.split("\n") if l.strip()]
+    if len(res) != len(cases):
+        raise RuntimeError("%d results for %d cases" % (len(res), len(cases)))
+    return res
 
 
 def is_public_name(n):
@@ -148,7 +185,7 @@ def compare(case, obs, model):
     n = 0
     for k, (op, o, m) in enumerate(zip(case["ops"], obs["ops"], model)):
         n += 1
-        imut = sorted(x["env"] for x in o["mut"])
+        imut = sorted((x["env"] for x in o["mut"]), key=str)
         if imut != sorted(m["m"]):
             return ({"op": k, "what": "changed earlier values", "impl": imut, "model": m["m"]}, None, n)
         if o["exc"] is None and m["status"] == "ok":
@@ -233,6 +270,26 @@ def check(run):
         run.broken.append(Broken("harness", "a library call did not return within the time limit",
                                  {"cases": len(hung), "first": {"kind": c["kind"], "call": describe(c["ops"][k]), "ops": c["ops"][:k + 1]}}))
 
+    # ---- process environment: the same cases under another zone / hash seed must behave the same
+    sub = [c for c in cases if "harness_error" not in c][: (600 if thorough else 120)]
+    base = {common.case_hash(c): r for c, r in zip(cases, impl)}
+    env_diff = []
+    for label, extra in (("TZ=EST5EDT", {"TZ": "EST5EDT"}), ("TZ=JST-9 PYTHONHASHSEED=1234", {"TZ": "JST-9", "PYTHONHASHSEED": "1234"})):
+        try:
+            got = run_impl_env(sub, extra)
+        except RuntimeError as e:
+            run.broken.append(Broken("harness", "worker failed under " + label, {"error": str(e)[-800:]}))
+            continue
+        for c, r in zip(sub, got):
+            run.violations += oracle_case(c, r)
+            b = base[common.case_hash(c)]
+            if essence(r) != essence(b):
+                env_diff.append({"env": label, "kind": c["kind"], "ops": c["ops"]})
+    run.coverage["environment_variants"] = {"cases_each": len(sub), "variants": 2, "behaviour_differences": len(env_diff)}
+    if env_diff:
+        run.broken.append(Broken("correspondence", "behaviour depends on the process environment (TZ / hash seed)",
+                                 {"first": env_diff[:2]}))
+
     # ---- correspondence on the modelled cases
     modelled = [(c, r, G.case_to_coq(c)) for c, r in zip(cases, impl) if "harness_error" not in r]
     modelled = [(c, r, t) for c, r, t in modelled if t is not None]
@@ -271,7 +328,7 @@ def check(run):
     if run.broken and not run.violations:
         extra = []
         want = {d["kind"] for d in dis}
-        table = [(f, w) for f, w in G.MODELLED + G.SNAPSHOT_ONLY if not want or G.KIND_OF[f] in want]
+        table = G.MODELLED + G.SNAPSHOT_ONLY          # the FULL generator, whatever broke
         for _ in range(3 * (n_model + n_snap)):
             extra.append(G.pick(run.rng, table)(run.rng))
         got = common.run_impl("c13_impl", extra)
